@@ -413,7 +413,7 @@ func (x *Exec) execInstr(fc *funcCtx, n *node, ins ssa.Instruction) {
 		for _, r := range i.Results {
 			vals = append(vals, op(r))
 		}
-		fc.rets = append(fc.rets, retPoint{guard: n.guard, vals: vals, st: st})
+		fc.rets = append(fc.rets, retPoint{node: n, guard: n.guard, vals: vals, st: st})
 	case *ssa.If, *ssa.Jump:
 		// handled by caller
 	case *ssa.Panic:
